@@ -19,7 +19,8 @@ RULE = ("complete enumeration of call shapes: {@symbolic_function plain function
         "keyword, concrete positional, concrete keyword, omitted} (positional before keyword), each evaluated over "
         "random 2-3 element domains, then evaluated a second time after the bound objects changed, and once more as the "
         "second condition of a query that binds a further variable, once directly under not_ and once as the condition of for_all; "
-        "five further signature families (*args, positional-only, keyword-only, **kwargs and all of them mixed) as function and as method, "
+        "five further signature families (*args, positional-only, keyword-only, **kwargs and all of them mixed) as function, as method "
+        "of a plain object and as method written on a receiver variable (x.method(y)), "
         "each with 5-8 call shapes, where the oracle is the concrete call for every candidate binding; random repetitions with other worlds in the thorough tier.  Non-trivial = the call "
         "has at least one variable argument; distinct = the call shape")
 ASSUMPTIONS = ["all generated functions / methods / predicate classes share one qualified name per kind (re-definitions "
@@ -38,7 +39,7 @@ def plan(tier):
             "min_nontrivial": 100,
             "min_counters": {"body_calls_checked": 2000, "concrete_calls": 100, "symbolic_constructions": 300,
                              "reevaluations_with_changed_truth": 100, "bystander_queries": 300,
-                             "negated_queries_with_answers": 100, "signature_family_calls": 100}}
+                             "negated_queries_with_answers": 100, "signature_family_calls": 100, "receiver_variable_calls": 30}}
 
 
 LOG = []
@@ -181,9 +182,12 @@ SIGS = {
 
 def sig_shapes():
     for name, calls in SIGS.items():
-        for method in (False, True):
+        for method in (False, True, "receiver"):
             for n, (pos, kw) in enumerate(calls):
                 yield {"sig": name, "method": method, "pos": list(pos), "kw": dict(kw), "n": n}
+                if method == "receiver":
+                    # written on a receiver variable with plain arguments only: receiver_variable.method(1, 2)
+                    yield {"sig": name, "method": method, "pos": ["c"] * len(pos), "kw": {k: "c" for k in kw}, "n": 100 + n}
 
 
 def shapes():
@@ -236,6 +240,7 @@ def witnesses():
         "positional-args-shifted": {"kind": "fn", "arity": 2, "nd": 0, "args": ["vp", "cp"], "wseed": 1},
         "positional-args-shifted-method": {"kind": "method", "arity": 1, "nd": 0, "args": ["vp"], "wseed": 2},
         "variadic-and-positional-only-parameters": {"sig": "mixed", "method": False, "pos": ["v", "c", "c", "v"], "kw": {"zz": "c"}, "n": 4, "wseed": 3},
+        "method-on-receiver-variable-never-runs": {"sig": "kwonly", "method": "receiver", "pos": ["v"], "kw": {"p1": "v"}, "n": 5, "wseed": 5},
         "variadic-and-positional-only-parameters-method": {"sig": "posonly", "method": True, "pos": ["c"], "kw": {"p1": "v"}, "n": 4, "wseed": 4},
     }
 
@@ -286,12 +291,20 @@ def run_sig(spec, ctx):
     m = ctx["m"]
     C = ctx["counters"]
     rng = random.Random(spec["wseed"])
+    receiver = spec["method"] == "receiver"
     call = getattr(ctx["sig_host"], "sig_" + spec["sig"]) if spec["method"] else ctx["sig"][spec["sig"]]
-    shape = f"sig/{spec['sig']}/{'method' if spec['method'] else 'fn'}/{','.join(spec['pos'])}/" + \
+    shape = f"sig/{spec['sig']}/{spec['method'] if spec['method'] in (False, 'receiver') else 'method'}/{','.join(spec['pos'])}/" + \
             ",".join(f"{k}={v}" for k, v in spec["kw"].items())
     slots = [("pos", i, k) for i, k in enumerate(spec["pos"])] + [("kw", name, k) for name, k in spec["kw"].items()]
     doms, variables, consts = {}, {}, {}
+    if receiver:
+        # the method is written on a variable over its receivers: receiver_variable.method(arguments)
+        doms[("recv", 0)] = [type(ctx["sig_host"])() for _ in range(2)]
+        variables[("recv", 0)] = let(type(ctx["sig_host"]), list(doms[("recv", 0)]), name="receiver")
+        slots = [("recv", 0, "v")] + slots
     for where, at, k in slots:
+        if where == "recv":
+            continue
         if k == "v":
             doms[(where, at)] = [m.P(a=rng.randint(0, 3), name=f"v{at}_{j}") for j in range(rng.randint(2, 3))]
             variables[(where, at)] = let(m.P, list(doms[(where, at)]), name=f"x{at}")
@@ -318,6 +331,8 @@ def run_sig(spec, ctx):
     for b in bindings:
         LOG.clear()
         pos, kw = arguments(b, False)
+        if receiver:
+            call = getattr(b[("recv", 0)], "sig_" + spec["sig"])
         value = call(*pos, **kw)
         if isinstance(value, SymbolicExpression) or len(LOG) != 1:
             return {"status": "fail", "kind": "concrete-call", "key": None,
@@ -330,6 +345,9 @@ def run_sig(spec, ctx):
     C["signature_family_calls"] += 1
     problems = []
     pos, kw = arguments(None, True)
+    if receiver:
+        call = getattr(variables[("recv", 0)], "sig_" + spec["sig"])
+        C["receiver_variable_calls"] += 1
     try:
         res = call(*pos, **kw)
     except Exception as e:
